@@ -2,6 +2,7 @@
 index into the token table state.1 = token id). Shared by C02 (tokenize/de_tokenize side) and C04 (vocabulary maps)."""
 import re
 from analysis.engine import AnchorMissing
+from analysis import cfg
 from analysis.sym import sym, show_in, nosite, peel, core, walk, cmp_facts_at, ret_values, args_of, loop_source, init_value
 from analysis.pat import match, Call, Cap, ANY, Pred, Const, chain, chain_names, has
 from rules.common import body_for, bpe_body, closure_of, BPE, closures_in
@@ -202,17 +203,45 @@ def check_get_vocab(ctx):
     n = 0
     for t in ins:
         k = core(init_value(body, sym(body, t.args[1])))
+        k0 = core(sym(body, t.args[1]))
+        if k0[0] == 'field' and any(isinstance(x, tuple) and x and x[0] == 'call' and x[1].endswith('::next') for x in walk(k0)):
+            continue      # a component of a pulled (id, token) pair: judged on the feeding sequence below
         if mentions_state(k, 0):
             n += 1
             ctx.require(is_add256(k, lambda u: mentions_state(u, 0)), body, 'get-vocab-offset',
                         'get_vocab: merge entry is stored under 256 + merge id',
                         'get_vocab stores a merge entry under %s' % show_in(body, sym(body, t.args[1])), t.span)
+    from rules.common import range_bounds
+    bytes_by_loop = False
+    if n == 0:
+        # the entries prepared as (id, token) pairs by iterator chains and inserted at one site: read the pairs off the sequence that feeds the loop
+        from analysis.seq import seq_of_iter, ITEM as _IT
+        from analysis.sym import loop_source
+        for t in ins:
+            lp = cfg.innermost_loop(body, t.bb)
+            nx = [c for c in body.calls(r'::next$') if lp is not None and c.bb in lp.blocks]
+            if len(nx) != 1:
+                continue
+            segs = seq_of_iter(ctx.facts, body, loop_source(body, nx[0])) or []
+            for sg in segs:
+                e = peel(sg.elem) if sg.elem is not None else ()
+                if sg.kind != 'each' or not (e and e[0] == 'agg' and e[1] == 'tuple' and len(e[3]) == 2):
+                    continue
+                if mentions_state(sg.src, 0):
+                    n += 1
+                    ctx.require(is_add256(core(e[3][0]), lambda u: core(u) == ('field', _IT, 1)) and not sg.conds, body, 'get-vocab-offset',
+                                'get_vocab: merge entry is stored under 256 + merge id', 'get_vocab stores a merge entry under %s' % show_in(body, e[3][0]), t.span)
+        # the byte entries written by a for_each / loop over 0..256 instead of a collect
+        for t in body.terms('call'):
+            for a in t.args:
+                for x in walk(nosite(sym(body, a))):
+                    if isinstance(x, tuple) and x and x[0] in ('agg', 'call') and range_bounds(x) == (0, 256):
+                        bytes_by_loop = True
     if n == 0:
         ctx.fail(body, 'get-vocab-offset', 'get_vocab inserts no entry keyed by a merge id')
     # the byte part: range 0..256 mapped to (b as u32, vec![b as u8])
     cols = [t for t in body.calls(r'Iterator::collect$')]
-    good = False
-    from rules.common import range_bounds
+    good = bytes_by_loop
     for c in cols:
         ch = sym(body, c.args[0])
         if match(ch, Call('Iterator::map', ANY, ANY)) and range_bounds(ch[2][0]) == (0, 256):
